@@ -177,6 +177,39 @@ func genC19Packet(t *rapid.T, w *world.World) kit.Transfer {
 	return tr
 }
 
+// richPrefix puts the module into a state in which every collection holds several entries - both
+// actions paused, several protocols and counterparties paused, a non-default parameter - so that
+// anything that depends on the ORDER in which a collection is read back (exported state, query
+// answers, error texts listing entries) has something to reorder.
+func richPrefix(t *rapid.T) kit.History {
+	var h kit.History
+	add := func(a kit.Admin) { h = append(h, kit.Step{Admin: &a}) }
+	add(kit.Admin{Kind: "pause_action", Action: "ACTION_SWAP"})
+	add(kit.Admin{Kind: "pause_action", Action: "ACTION_FEE"})
+	for _, p := range []string{"PROTOCOL_HYPERLANE", "PROTOCOL_IBC", "PROTOCOL_CCTP", "PROTOCOL_INTERNAL"} {
+		if kit.Chance(t, "rich/"+p, 60) {
+			add(kit.Admin{Kind: "pause_protocol", Protocol: p})
+		}
+	}
+	add(kit.Admin{Kind: "pause_cc", Protocol: "PROTOCOL_CCTP", Ids: []string{"5", "0", "3"}})
+	add(kit.Admin{Kind: "pause_cc", Protocol: "PROTOCOL_HYPERLANE", Ids: []string{"7", "1"}})
+	add(kit.Admin{Kind: "update_params", MaxPassthrough: 64})
+	if kit.Chance(t, "rich/unpause-fee", 50) {
+		add(kit.Admin{Kind: "unpause_action", Action: "ACTION_FEE"})
+		add(kit.Admin{Kind: "pause_action", Action: "ACTION_FEE"})
+	}
+	return h
+}
+
+// genC19History draws a history, a third of the time on top of the rich prefix.
+func genC19History(t *rapid.T, opt kit.HistOpt) kit.History {
+	h := kit.GenHistory(t, opt)
+	if kit.Chance(t, "rich-prefix", 35) {
+		h = append(richPrefix(t), h...)
+	}
+	return h
+}
+
 func c19Opt(w *world.World) kit.HistOpt {
 	return kit.HistOpt{
 		MinSteps: 2, MaxSteps: maxSteps(),
@@ -191,7 +224,7 @@ func TestC19InProcess(t *testing.T) {
 	rec := kit.NewRecorder(t, "C19")
 	opt := c19Opt(w1)
 	rapid.Check(t, func(rt *rapid.T) {
-		c := caseHistory{History: kit.GenHistory(rt, opt)}
+		c := caseHistory{History: genC19History(rt, opt)}
 		rec.Eval()
 		if err := runC19(w1, w2, c, rec); err != nil {
 			rec.Fail(rt, c, "%v", err)
@@ -342,7 +375,7 @@ func TestC19CrossProcess(t *testing.T) {
 	defer out.Flush()
 	opt := c19Opt(w)
 	rapid.Check(t, func(rt *rapid.T) {
-		c := caseHistory{History: kit.GenHistory(rt, opt)}
+		c := caseHistory{History: genC19History(rt, opt)}
 		rec.Eval()
 		lines, _ := transcript(w, c.History)
 		h := sha256.New()
